@@ -202,16 +202,24 @@ Lemma clear_noop kids sc tc k :
   clear_other_case k kids tc = tc.
 Proof.
   intros Hk Hw. unfold clear_other_case.
-  destruct (innermost (sguard k)) as [[c kc]|] eqn:Ei; [|reflexivity].
-  pose proof (guard_selected_in _ _ _ Hk c kc (innermost_in _ _ _ Ei)) as Hc.
-  destruct (choose c kids tc) as [k'|] eqn:Ech; [|reflexivity].
-  assert (k' = kc); [|subst; now rewrite Nat.eqb_refl].
-  unfold choose in Ech. destruct (cases_with_data c kids tc) as [|x tl] eqn:El; [discriminate|].
-  injection Ech as <-.
-  assert (Hall : forall y, In y (x :: tl) -> y = kc).
-  { intros y Hy. rewrite <- El in Hy. destruct (cases_with_data_in c kids tc y Hy) as (j & kj & A & B & C).
-    pose proof (guard_selected_in _ _ _ (Hw j kj A C) c y (guard_case_in _ _ _ B)) as Hy'. congruence. }
-  rewrite (Hall x (or_introl eq_refl)). apply fold_min_const. intros y Hy. apply Hall. right. exact Hy.
+  assert (Hin : forall c kc, In (c, kc) (rev (sguard k)) -> In (c, kc) (sguard k)).
+  { intros c kc H. apply in_rev. exact H. }
+  induction (rev (sguard k)) as [|[c kc] l IH]; [reflexivity|].
+  cbn [fold_left].
+  assert (Hstep : match choose c kids tc with
+                  | Some k' => if Nat.eqb kc k' then tc else clear_case c k' kids tc
+                  | None => tc
+                  end = tc).
+  { pose proof (guard_selected_in _ _ _ Hk c kc (Hin c kc (or_introl eq_refl))) as Hc.
+    destruct (choose c kids tc) as [k'|] eqn:Ech; [|reflexivity].
+    assert (k' = kc); [|subst; now rewrite Nat.eqb_refl].
+    unfold choose in Ech. destruct (cases_with_data c kids tc) as [|x tl] eqn:El; [discriminate|].
+    injection Ech as <-.
+    assert (Hall : forall y, In y (x :: tl) -> y = kc).
+    { intros y Hy. rewrite <- El in Hy. destruct (cases_with_data_in c kids tc y Hy) as (j & kj & A & B & C).
+      pose proof (guard_selected_in _ _ _ (Hw j kj A C) c y (guard_case_in _ _ _ B)) as Hy'. congruence. }
+    rewrite (Hall x (or_introl eq_refl)). apply fold_min_const. intros y Hy. apply Hall. right. exact Hy. }
+  rewrite Hstep. apply IH. intros c' kc' H. apply Hin. right. exact H.
 Qed.
 
 Lemma written_visible_set kids sc tc i k d :
